@@ -277,6 +277,22 @@ def splitNameDim (name : Str) : Str × Str :=
   | some i => (name.take i, name.drop i)
   | none => (name, [])
 
+/-- the other reading ("the first *kind* of delimiter that occurs": `(` before `[` before `*`).  Not what the
+    code does; kept to state that position, not kind, decides (`split_by_kind_witness`): the two agree unless
+    a `*` precedes a `(` - `character label*(*)`, `line*(80)`. -/
+def splitNameDimByKind (name : Str) : Str × Str :=
+  match posIdx '(' name with
+  | some i => (name.take i, name.drop i)
+  | none =>
+    match posIdx '[' name with
+    | some i => (name.take i, name.drop i)
+    | none =>
+      match posIdx '*' name with
+      | some i => (name.take i, name.drop i)
+      | none => (name, [])
+
+def isNameDelim (c : Char) : Bool := c == '(' || c == '[' || c == '*'
+
 def startsWithCI (s p : Str) : Bool := startsWith (lower s) p
 
 /-- end of `parse_type` for numeric types: `KIND_RE.match(args)` = `kind\s*=\s*([^,\s]+)`;
